@@ -380,7 +380,7 @@ func (o *oracles) beforeBody(j *jobRec) {
 		o.convLogSeen = len(o.vconvLog())
 	}
 	// disk error faults: the file system refuses to create index files
-	if j.kind == simrt.KindMerge && o.s.plan.MergeFail {
+	if j.kind == simrt.KindMerge && (o.s.plan.MergeFail || j.seq < o.s.plan.MergeFailN) {
 		simrt.FailCreates(".idx", -1)
 	}
 	if j.kind == simrt.KindImport && o.importFailLeft > 0 {
@@ -531,7 +531,7 @@ func (o *oracles) afterStep(st stepRef) {
 		o.checkConverters(false)
 	}
 	if o.on("C11") {
-		if st.kind == "api" && o.lastAPI != nil {
+		if st.kind == "api" && o.lastAPI != nil && o.s.writeFault("api", 0, o.lastAPI.op.ID) == nil {
 			o.checkAtomic(o.lastAPI.op, o.lastAPI.r)
 		}
 		if o.s.res.Viol == nil {
